@@ -98,6 +98,7 @@ def load_known():
 def finish(ctx, t0, level, trusted_base, assumptions, explanation, checker_cmd):
   """Applies the verdict policy, writes evidence + replay files, returns exit code."""
   prop = ctx.prop
+  out = []
   known = load_known()
   known_keys = {k["key"]: k for k in known.get("findings", []) if k.get("property") == prop}
   # instance-count guards
@@ -126,22 +127,22 @@ def finish(ctx, t0, level, trusted_base, assumptions, explanation, checker_cmd):
   for r in ctx.results:
     d = per_rule.setdefault(r.rule, {"ok": 0, "violation": 0, "incomplete": 0})
     d[r.status] += 1
-  print("== %s tier=%s  rules=%d obligations=%d ok=%d violations=%d (known %d) incomplete=%d"
+  out.append("== %s tier=%s  rules=%d obligations=%d ok=%d violations=%d (known %d) incomplete=%d"
         % (prop, ctx.tier, len(per_rule), len(ctx.results), len(okr), len(viol),
            len(known_hit), len(inc)))
   for rule in sorted(per_rule):
     d = per_rule[rule]
-    print("   %-22s ok=%-3d violation=%-2d incomplete=%-2d" % (rule, d["ok"], d["violation"], d["incomplete"]))
+    out.append("   %-22s ok=%-3d violation=%-2d incomplete=%-2d" % (rule, d["ok"], d["violation"], d["incomplete"]))
   for r in known_hit:
-    print("KNOWN-FINDING: property=%s %s  [%s] %s" % (prop, known_keys[r.key].get("what", r.key), r.key, r.detail))
+    out.append("KNOWN-FINDING: property=%s %s  [%s] %s" % (prop, known_keys[r.key].get("what", r.key), r.key, r.detail))
   for i, r in enumerate(new_viol):
     path = os.path.join(rdir, "%s-%d.json" % (prop, i))
     with open(path, "w") as f:
       json.dump({"property": prop, **r.as_dict(), "key": r.key}, f, indent=1, default=str)
-    print("  violated: %s @ %s :: %s -- %s" % (r.rule, r.where, r.construct, r.detail))
-    print("VIOLATION property=%s replay=%s" % (prop, path))
+    out.append("  violated: %s @ %s :: %s -- %s" % (r.rule, r.where, r.construct, r.detail))
+    out.append("VIOLATION property=%s replay=%s" % (prop, path))
   for r in inc:
-    print("ANALYSIS-INCOMPLETE property=%s rule=%s where=%s construct=%s -- %s"
+    out.append("ANALYSIS-INCOMPLETE property=%s rule=%s where=%s construct=%s -- %s"
           % (prop, r.rule, r.where, r.construct, r.detail))
   distinct = len({r.key for r in ctx.results if r.status != "incomplete"})
   samples = [r.as_dict() for r in (new_viol + known_hit + okr)[:12]]
@@ -176,6 +177,12 @@ def finish(ctx, t0, level, trusted_base, assumptions, explanation, checker_cmd):
   }
   with open(os.path.join(EVIDENCE_DIR, prop + ".json"), "w") as f:
     json.dump(ev, f, indent=1, default=str)
+  try:
+    for line in out:
+      print(line)
+    sys.stdout.flush()
+  except BrokenPipeError:
+    pass
   if new_viol:
     return 1
   if inc:
